@@ -148,7 +148,11 @@ func runC13(t *rapid.T) {
 	if s.Switches > 2 {
 		core.Probe("interleaved-writer-reader")
 	}
-	if werr != nil {
+	if werr == simio.ErrClosedPipe {
+		// the reader returned before the writer was done: judge the frame it produced
+		core.Probe("reader-finished-before-writer")
+		tr.WriteErr = werr.Error()
+	} else if werr != nil {
 		tr.WriteErr = werr.Error()
 		core.Violation(t, "C13:write-error", "ToCSV failed on a healthy writer: "+werr.Error(), tr)
 		return
